@@ -4,6 +4,7 @@ from harness.runner import run_property
 
 PROP = "C04"
 THEOREMS = [
+    "Lbfgsb.C04.projgr_shift",
     "Lbfgsb.C04.message_documented",
     "Lbfgsb.C04.thresholds",
     "Lbfgsb.C04.report_truthful",
@@ -12,7 +13,7 @@ THEOREMS = [
     "Lbfgsb.C04.nfev_bound",
     "Lbfgsb.C04.criteria_called_once",
 ]
-MODULES = ["LbfgsbVerif.Props.C04"]
+MODULES = ["LbfgsbVerif.Props.C04", "LbfgsbVerif.Props.C04Shift"]
 
 
 def features(r):
